@@ -311,7 +311,7 @@ func TestMain(m *testing.M) {
 			R.Require(d.name+"/len_rewrite", d.name+"/tag_swap")
 		}
 	}
-	R.Require("ber_depth>=1000", "vec_len_sweep", "hello_ext_sweep")
+	R.Require("ber_depth>=1000", "vec_len_sweep", "hello_ext_sweep", "der_value_sweep")
 	R.Assume("inputs that declare more than 4096 key-stretching iterations are skipped and counted as discarded (the statement exempts format-carried stretching)")
 	hx.Main(m, R)
 }
@@ -457,6 +457,51 @@ func TestC18_VectorLengths(t *testing.T) {
 		}
 	}
 	R.Subspace("every position x width 1..3 x 14 length-like values for each seed <= 2 KiB (quick: non-ASN.1 decoders only)", n, true)
+}
+
+// well-formed DER with unusual VALUES: the content of each TLV of each seed is replaced (zero-padded or negative
+// integers, empty / doubled / shortened strings and sets, members dropped or duplicated) and every enclosing length is
+// re-encoded. Length rewrites stop at the first framing check; these reach the code that interprets the values.
+func TestC18_ConsistentDER(t *testing.T) {
+	var n int64
+	for i := range decoders {
+		d := &decoders[i]
+		if hx.Shards() > 1 && i%hx.Shards() != hx.Shard() {
+			continue
+		}
+		used := false
+		for si, seed := range d.seeds {
+			if len(seed) > 4096 {
+				continue
+			}
+			limit := 400
+			if !hx.Thorough() && si > 0 {
+				limit = 60 // quick: the first seed of a decoder in full, the others in their outer layers
+			}
+			if blk, _ := pem.Decode(seed); blk != nil && len(blk.Headers) == 0 {
+				// PEM readers: the DER inside the armour is mutated and armoured again
+				for _, m := range gen.DERConsistent(blk.Bytes, limit) {
+					runOne(t, d, pem.EncodeToMemory(&pem.Block{Type: blk.Type, Bytes: m.Data}), "der_value")
+					n++
+				}
+				used = true
+				continue
+			}
+			if !d.asn1 {
+				continue
+			}
+			for _, m := range gen.DERConsistent(seed, limit) {
+				runOne(t, d, m.Data, "der_value")
+				n++
+			}
+			used = true
+		}
+		if !used {
+			continue
+		}
+		R.Case(true, hx.HashKey("derfix", d.name), "der_value_sweep")
+	}
+	R.Subspace("length-consistent value replacements of every TLV of the ASN.1 seeds", n, true)
 }
 
 // ClientHello / ServerHello with the extension block rebuilt consistently around bodies that are empty, cut short,
